@@ -1,4 +1,40 @@
-#include "core.h"
-static void g(plan *p, uint64_t seed, const char *cfg) { (void)p; (void)seed; (void)cfg; }
-static void r(const plan *p) { (void)p; }
-const engine eng_procs = { .name = "procs", .props = "", .gen = g, .run = r, .rule = "stub" };
+/* eng_procs.c - C04..C14: the dispatch loop belongs to the harness */
+#include "procs.h"
+#include <string.h>
+
+#define EVBUDGET 30000
+
+static void procs_run(const plan *p)
+{
+    mon_reset();
+    world_build(p);
+    const double t_begin = tnow();
+    uint64_t budget = EVBUDGET;
+    bool quiescent = false;
+    while (g_nviol == 0) {
+        if (budget-- == 0) { g_stats.budget = true; break; }
+        mon_before_event();
+        const double t0 = tnow();
+        const bool more = cmb_event_execute_next();
+        if (!more) { mon_boundary_commit(); quiescent = true; break; }
+        if (tnow() > t0) mon_boundary_commit();         /* the previous instant is over */
+        if (g_nviol) break;
+        mon_after_event();
+        if (g_nviol || W.stop_judging) break;
+        mon_boundary_eval();
+    }
+    if (quiescent && g_nviol == 0 && !W.stop_judging) mon_quiescence();
+    g_stats.simtime = (tnow() - t_begin < 1e200) ? tnow() - t_begin : 0.0;
+    g_stats.nontrivial = g_stats.faults > 0;
+    if (g_nviol == 0) world_teardown();
+    else {
+        /* after a violation the library state is not trusted: free the stacks, leave the rest */
+        for (int i = 0; i < W.np; i++) if (PR[i].created) cmb_process_terminate(PR[i].pp);
+        cmb_event_queue_terminate();
+    }
+}
+
+const engine eng_procs = {
+    .name = "procs", .props = "C04 C05 C06 C07 C08 C09 C11 C12 C13 C14", .gen = procs_gen, .run = procs_run,
+    .rule = "runs in which at least one fault (interrupt, stop, timer expiry aside, preemption, guard cancel/remove, event cancel, priority change) landed on a blocked operation",
+};
